@@ -504,6 +504,57 @@ func TestCheck(t *testing.T) {
 		}
 		rec.NonTriv(c.Value)
 		rec.Class("d:unsupported-rejected")
+
+		// (e) pointers (nil and non-nil) to supported and registry types, named types over supported kinds:
+		// whether such a type is supported is the implementation's choice, so the oracle is only
+		// "no panic, and either an error or a value without a nil Object inside".
+		{
+			i64, str, dur, raw, tm, bs, sl, mp, f64, bl := int64(3), "x", gotime.Duration(5), json.RawMessage("1"), gotime.Unix(0, 0), []byte("b"), []any{int64(1)}, map[string]any{"a": int64(1)}, 1.5, true
+			ptm := &tm
+			var ierr error
+			ptrs := []any{
+				&i64, &str, &dur, &raw, &ptm, &bs, &sl, &mp, &f64, &bl, &ierr,
+				(*int64)(nil), (*string)(nil), (*gotime.Duration)(nil), (*json.RawMessage)(nil), (**gotime.Time)(nil), (*[]byte)(nil),
+				(*[]any)(nil), (*map[string]any)(nil), (*float64)(nil), (*bool)(nil), (*error)(nil), (*gotime.Month)(nil), (*ugo.Int)(nil),
+				(*ugo.Array)(nil), (*ugo.Map)(nil), (*ugo.String)(nil), gotime.Month(3), gotime.Weekday(2), (*any)(nil), new(any),
+			}
+			pv := rapid.SampledFrom(ptrs).Draw(rt, "pointer")
+			var pin any = pv
+			switch rapid.SampledFrom([]string{"top", "slice", "map", "deep"}).Draw(rt, "pwrap") {
+			case "slice":
+				pin = []any{int64(1), pv, "x"}
+			case "map":
+				pin = map[string]any{"a": "x", "b": pv}
+			case "deep":
+				pin = []any{map[string]any{"k": []any{pv, int64(2)}}}
+			}
+			rec.Case()
+			pc := caseA{"e", fmt.Sprintf("%T nil=%v", pv, fmt.Sprint(pv) == "<nil>")}
+			for _, alt := range []bool{false, true} {
+				var o ugo.Object
+				var err error
+				if p := safe(func() {
+					if alt {
+						o, err = ugo.ToObjectAlt(pin)
+					} else {
+						o, err = ugo.ToObject(pin)
+					}
+				}); p != "" {
+					fail(rt, fmt.Sprintf("e:panic:%T", pv), p, pc)
+					return
+				}
+				if err == nil && hasNil(o) {
+					fail(rt, fmt.Sprintf("e:nil-object:%T", pv), fmt.Sprintf("ToObject of %T returned no error and a value containing a nil Object", pv), pc)
+					return
+				}
+				if err != nil {
+					rec.Class("e:pointer-rejected")
+				} else {
+					rec.Class("e:pointer-converted")
+				}
+			}
+			rec.NonTriv(pc.Value + fmt.Sprintf("%T", pin))
+		}
 	})
 
 	// registry + special cases: enumerated
